@@ -47,7 +47,7 @@ struct StubSVC : ob::StateValidityChecker
     bool isValid(const ob::State *s) const override
     {
         int tag = static_cast<const TState *>(s)->tag;
-        if (tag < 0 || tag > g_nd) { g_bad = 1; return true; }
+        if (tag < 0 || tag > MAXND) { g_bad = 1; return true; }
         if (g_seen[tag] < 200) g_seen[tag]++;
         return g_valid[tag];
     }
@@ -70,18 +70,12 @@ extern "C" void harness_dmv()
         g_seen[j] = 0;
         g_T[j] = (double)j / (double)MAXND;
     }
-#if ND == 0
-    g_valid[0] = 1;   // identical states: s1 is valid by precondition, and s2 == s1
-#endif
     TState s1, s2, lv;
-    s1.t = 0; s1.tag = 0; s2.t = 1; s2.tag = g_nd; lv.t = -7; lv.tag = -7;
+    s1.t = 0; s1.tag = 0; s2.t = 1; s2.tag = MAXND; lv.t = -7; lv.tag = -7;   // for nd == 0 (distance-0 pair) the end state still has its own validity bit
     bool expect = true;
     int firstBad = -1;
     for (int j = 1; j <= MAXND; ++j)
-        if (j <= g_nd && !g_valid[j] && firstBad < 0) { expect = false; firstBad = j; }
-#if ND == 0
-    expect = g_valid[0]; firstBad = -1;
-#endif
+        if (!g_valid[j] && firstBad < 0) { expect = false; firstBad = j; }
     // fast form
     bool r2 = mv->checkMotion(&s1, &s2);
     VT_CHECK(r2 == expect, "fast form: valid exactly when every subdivision point and the end state are valid");
@@ -89,13 +83,11 @@ extern "C" void harness_dmv()
     if (r2)
     {
         for (int j = 1; j <= MAXND; ++j)
-            if (j <= g_nd) VT_CHECK(g_seen[j] == 1, "fast form checks every subdivision point exactly once on success");
+            VT_CHECK(g_seen[j] == 1, "fast form checks every subdivision point exactly once on success");
         vt_cover("fast form valid");
     }
-#if ND > 0
     else
         vt_cover("fast form invalid");
-#endif
     VT_CHECK(mv->valid_ + mv->invalid_ == 1 && mv->valid_ == (r2 ? 1u : 0u), "fast form advances exactly one counter");
     VT_CHECK(g_alloc == g_free, "fast form frees its temporary state");
     // lastValid form
